@@ -285,6 +285,9 @@ def space(tier):
     progs = [('core', p) for p in ps.programs(k, 2, ctl=False)]
     progs += [('ctl', p) for p in ps.programs(3, 2, ctl=True)]
     progs += [('feat', p) for p in names_run.feature_programs(1)]
+    # decorated definitions as the first statement of a block whose header binds the name the decorator reads
+    deco = {'def-decorator', 'class-decorator', 'comp-in-decorator', 'plain-comp-in-decorator', 'def-annotations', 'def-param-default', 'class-bases'}
+    progs += [('feat-nested', p) for p in names_run.feature_programs(2, names=deco)]
     seen = set()
     out = []
     for o, p in progs:
